@@ -101,6 +101,13 @@ extern "C" void harness(void)
 		vassert(obj.getBooleanValue(CKA_COPYABLE, true));                         // C08: CKA_COPYABLE
 		bool newTok = store_log.tokCreates > 0; bool newPriv = store_log.sessCreates ? store_log.lastSessPriv : (p11_log.saves ? p11_log.lastIsPrivate : oPriv);
 		vassert(!newTok || rw);                                                   // token objects only through RW sessions
+		// the copy's privacy / token-ness are the source's unless the template says otherwise (last matching entry wins)
+		bool expPriv = oPriv, expTok = oTok;
+		for (CK_ULONG i = 0; i < 2; i++) if (i < cnt && tmpl[i].ulValueLen == sizeof(CK_BBOOL) && tmpl[i].pValue) { if (tmpl[i].type == CKA_PRIVATE) expPriv = val[i][0] != 0; if (tmpl[i].type == CKA_TOKEN) expTok = val[i][0] != 0; }
+		vassert(newTok == expTok);
+		if (store_log.sessCreates) vassert(store_log.lastSessPriv == expPriv);
+		if (p11_log.saves) { vassert(p11_log.lastIsPrivate == expPriv); vreach(); }   // C06: the template's byte strings are stored according to the COPY's privacy
+		if (rv == CKR_OK) { Handle hh = env.hm->handles.at(hNew); vassert(hh.isPrivate == expPriv && hh.kind == CKH_OBJECT); }   // C01: the handle is purged at logout iff the copy is private
 		if (store_log.sessCreates) { vassert(!newPriv || userIn); vassert(!(oPriv && !newPriv)); }   // no private objects for public/SO sessions; no privacy downgrade
 		if (p11_log.saves) { vassert(!p11_log.lastIsPrivate || userIn); vassert(!(oPriv && !p11_log.lastIsPrivate)); vassert(p11_log.lastOp == OBJECT_OP_COPY && p11_log.lastObject == &env_newobj); }
 		vreach();
